@@ -4,12 +4,13 @@ Oracle = optimality conditions evaluated in longdouble on matrices whose rank, n
 condition number are known by construction; never a second solver.
 
 Monitors
-  ls_optimal        PINV / LSTSQ:  |A^T (A x - b)| <= u (8 max(m,n) + 48 kappa [PINV only]) |A| (|A||x| + |b|)
+  ls_optimal        PINV / LSTSQ:  |A^T (A x - b)| <= u (32 max(m,n) + 48 kappa [PINV only]) |A| (|A||x| + |b|)
   min_norm          PINV:          component of x outside the (constructed) row space of A <= c u kappa (|x| + |b|/|A|)
   chol_backward     Cholesky on SPD A:  |A x - b| <= c u (|A||x| + |b|)
-  chol_must_raise   Cholesky on symmetric A with a diagonal entry / eigenvalue <= -0.1|A|, or with an exactly zero
-                    pivot in exact dyadic arithmetic: returning any tensor is the violation
-  cg_residual       CG:  |b - A x| <= tol |b| + c u (|A||x| + |b|)
+  chol_must_raise   Cholesky on symmetric A with an eigenvalue <= -0.1|A| (constructed spectra, a negative diagonal
+                    entry at the first/middle/last pivot, small dyadic matrices, one such matrix inside a batch of
+                    SPD ones): returning any tensor is the violation (mech returned_vector_for_non_pd)
+  cg_residual       CG:  |b - A x| <= tol |b| + c u (|A| max(|x|,|x0|) + |b|)
   cg_zero_rhs       CG(b = 0) returns zeros
   cg_guess_untouched (side monitor, C06's) the initial guess is bitwise unchanged
   sparse_product    _sparse_csr_mm / bsr_bsc_matmul: .to_dense() equals the dense product within c u (|A||B|)_ij,
@@ -36,7 +37,7 @@ RULE = ("direct solvers: A = T (U diag(s) V^T) S with orthonormal U, V, a prescr
         "right-hand sides consistent / generic / nearly orthogonal to range(A) / zero, batch shapes of rank 0-2. Cholesky: "
         "SPD Q diag(s) Q^T, both triangles, batches; failure clause on symmetric matrices with a diagonal entry or an "
         "eigenvalue <= -0.1|A| (first/middle/last position, alone or inside a batch of SPD matrices) and on small dyadic "
-        "singular matrices. CG: dense/CSR/COO/BSR SPD operands (dense-spectrum and banded/block sparse, kappa <= 1e3), "
+        "indefinite matrices (singular PSD matrices are not judged). CG: dense/CSR/COO/BSR SPD operands (dense-spectrum and banded/block sparse, kappa <= 1e3), "
         "n = 1..40, |b| in {1e-3,1,1e3}, tol in {1e-3,1e-5,1e-8}, with/without initial guess (random, exact, zero) and "
         "SPD preconditioner (Jacobi dense/sparse, approximate inverse). sparse: all 16 (BSR,BSC,CSR,CSC)^2 layout pairs, "
         "block sizes 1..4 (rectangular), densities {0,0.1,0.5,1}, every pair of index subsets of {0..k-1} for k<=4 (5 "
@@ -48,16 +49,16 @@ ASSUME = ["rank decisions are unambiguous by construction; when torch's own svdv
           "float32: condition numbers up to 1e4 (1/kappa must stay far above eps*max(m,n))",
           "LSTSQ is judged on least-squares optimality only (minimum norm is stated for PINV); driver 'gels' only on full-rank input",
           "CG: the stated bound is evaluated with exact arithmetic on the returned x and is granted the round-off the "
-          "recurrence cannot avoid, c*u*(|A||x|+|b|); single right-hand side, single system (as documented)",
+          "recurrence cannot avoid, c*u*(|A| max(|x|,|x0|)+|b|) (x is accumulated on top of the initial guess x0); single right-hand side, single system (as documented)",
           "a layout pair the sparse helper does not support may raise; BSR x BSC must return",
           "norms are spectral / Euclidean, computed in float64 (numpy) for scaling only",
           "CPU only"]
 
 LD = np.longdouble
 DT = {"f64": torch.float64, "f32": torch.float32}
-C_LS = 8.0       # x max(m,n)
+C_LS = 32.0      # x max(m,n)
 C_LSK = 48.0     # x kappa (PINV only)
-C_MN = 16.0
+C_MN = 64.0
 C_CH = 16.0
 C_CG = 8.0
 C_SP = 16.0
@@ -280,12 +281,12 @@ def drive_ls(ck, rng, dn, thorough):
         for n in SIZES:
             shapes.append((m, n))
     rng.shuffle(shapes)
-    nshape = len(shapes) if thorough else 60
+    nshape = len(shapes) if thorough else 100
     picked = [(1, 1), (1, 40), (40, 1), (40, 40), (39, 40), (2, 3), (3, 2)] + shapes[:nshape]
     for idx, (m, n) in enumerate(picked):
         if not ck.mine(idx):
             continue
-        for rep in range(2 if thorough else 1):
+        for rep in range(6 if thorough else 1):
             bshape = [(), (), (3,), (2, 2), (1,)][int(rng.integers(5))]
             B = int(np.prod(bshape)) if bshape else 1
             cls_list = [classes[int(rng.integers(len(classes) - 1))] if rng.random() < 0.93 else "zero" for _ in range(B)]
@@ -350,11 +351,14 @@ def make_sym(rng, n, lam, dn, scale=1.0):
     return rnd(A, dn)
 
 
+NONPD_WITNESSES = [0]
+
+
 def drive_cholesky(ck, rng, dn, thorough):
     u, tiny = u_of(dn), tiny_of(dn)
     kmax = 1e8 if dn == "f64" else 1e4
     entry = "solver.Cholesky"
-    sizes = list(SIZES) * (3 if thorough else 1)
+    sizes = list(SIZES) * (10 if thorough else 1)
     for idx, n in enumerate(sizes):
         if not ck.mine(idx):
             continue
@@ -393,6 +397,13 @@ def drive_cholesky(ck, rng, dn, thorough):
     def must_raise(A_list, tagc, upper, bshape=None):
         n = A_list[0].shape[0]
         B = len(A_list)
+        # judged only when "not positive definite" is unambiguous: some matrix of the call has an eigenvalue
+        # <= -0.1 |A| (singular PSD matrices, for which a floating-point factorisation may legitimately succeed,
+        # are not judged)
+        lam = [np.linalg.eigvalsh(a) for a in A_list]
+        if not any(l[0] <= -0.1 * max(abs(l[0]), abs(l[-1])) for l in lam):
+            ck.note_add("chol_cases_not_judged_not_clearly_indefinite")
+            return
         shp = (B,) if (B > 1 or bshape) else ()
         At = tt(np.stack(A_list).reshape(shp + (n, n)), dn)
         bt = tt(rng.standard_normal(shp + (n, 1)), dn)
@@ -406,13 +417,19 @@ def drive_cholesky(ck, rng, dn, thorough):
         res = None
         if isinstance(X, torch.Tensor) and X.shape == bt.shape:
             res = (At.double() @ X.double() - bt.double()).norm().item()
-        ck.violation("chol_must_raise", regime, entry, "returned_tensor_for_non_positive_definite",
-                     {"dtype": dn, "class": tagc, "upper": upper, "A": At.double().tolist() if At.numel() <= 100 else "large",
+        ck.note_add("chol_non_pd_calls_that_returned")
+        if NONPD_WITNESSES[0] >= 6:
+            # the witness list of a worker is capped (core.MAX_WITNESSES): keep room for other mechanisms
+            ck.n_violations += 1
+            return
+        NONPD_WITNESSES[0] += 1
+        ck.violation("chol_must_raise", regime, entry, "returned_vector_for_non_pd",
+                     {"dtype": dn, "lambda_min_over_norm": [float(l[0] / max(abs(l[0]), abs(l[-1]))) for l in lam], "class": tagc, "upper": upper, "A": At.double().tolist() if At.numel() <= 100 else "large",
                       "b": bt.double().reshape(-1).tolist() if bt.numel() <= 40 else "large",
                       "returned": X.double().reshape(-1).tolist()[:40] if isinstance(X, torch.Tensor) else repr(X),
                       "residual_norm": res})
 
-    fsizes = [1, 2, 3, 4, 5, 8, 13, 32, 40] * (2 if thorough else 1)
+    fsizes = [1, 2, 3, 4, 5, 8, 13, 32, 40] * (5 if thorough else 1)
     for idx, n in enumerate(fsizes):
         if not ck.mine(idx):
             continue
@@ -437,10 +454,9 @@ def drive_cholesky(ck, rng, dn, thorough):
                 lst.insert(where, bad)
                 must_raise(lst, f"batch:one-indefinite-at-{'first' if where == 0 else 'last'}", upper)
     if ck.mine(0):
-        dy = {"zero1": [[0.0]], "zero2": [[0.0, 0.0], [0.0, 0.0]], "ones2": [[1.0, 1.0], [1.0, 1.0]], "rank1": [[4.0, 2.0], [2.0, 1.0]],
-              "diag10": [[1.0, 0.0], [0.0, 0.0]], "diag01": [[0.0, 0.0], [0.0, 1.0]], "F09": [[1.0, 2.0], [2.0, 1.0]],
-              "swap": [[0.0, 1.0], [1.0, 0.0]], "block": [[1.0, 1.0, 0.0], [1.0, 1.0, 0.0], [0.0, 0.0, 1.0]],
-              "lastzero": [[2.0, 1.0, 1.0], [1.0, 2.0, 1.0], [1.0, 1.0, 0.0]], "neg1": [[-1.0]]}
+        dy = {"F09": [[1.0, 2.0], [2.0, 1.0]], "swap": [[0.0, 1.0], [1.0, 0.0]], "neg1": [[-1.0]],
+              "lastneg": [[2.0, 1.0, 1.0], [1.0, 2.0, 1.0], [1.0, 1.0, -1.0]], "firstneg": [[-2.0, 0.0], [0.0, 1.0]],
+              "offdiag": [[1.0, 3.0, 0.0], [3.0, 1.0, 0.0], [0.0, 0.0, 4.0]], "zerodiag": [[0.0, 2.0, 0.0], [2.0, 0.0, 0.0], [0.0, 0.0, 1.0]]}
         for name, M in dy.items():
             for upper in (False, True):
                 must_raise([np.array(M)], f"dyadic:{name}", upper)
@@ -486,7 +502,7 @@ def drive_cg(ck, rng, dn, thorough):
     u, tiny = u_of(dn), tiny_of(dn)
     entry = "solver.CG"
     sizes = [1, 2, 3, 4, 5, 6, 8, 9, 12, 16, 17, 24, 30, 31, 36, 40]
-    reps = 3 if thorough else 1
+    reps = 8 if thorough else 1
     case = 0
     for n in sizes:
         for rep in range(reps):
@@ -554,7 +570,7 @@ def drive_cg(ck, rng, dn, thorough):
                         barg = bt[:, 0].clone() if b1d else bt.clone()
 
                         def wit():
-                            return {"dtype": dn, "n": n, "layout": layout, "A_kind": akind, "kappa": kap, "tol": tol, "M": mkind,
+                            return {"dtype": dn, "n": n, "layout": layout, "A_kind": akind, "kappa": kap, "cg_tol": tol, "M": mkind,
                                     "x0": x0kind, "b_is_1d": b1d, "b_norm": n2(b), "A": A.tolist() if n <= 6 else "large",
                                     "b": b.reshape(-1).tolist() if n <= 12 else "large",
                                     "x0_values": None if x0 is None or n > 12 else x0_before.double().reshape(-1).tolist()}
@@ -578,13 +594,15 @@ def drive_cg(ck, rng, dn, thorough):
                         ck.count("cg_residual", regime, key=(dn, layout, mkind, x0kind, tol, digest(A, b)))
                         res = n2(b.astype(LD) - A.astype(LD) @ xn.astype(LD)) if np.isfinite(xn).all() else np.inf
                         nb = n2(b)
-                        bound = tol * nb + C_CG * u * (smax * n2(xn) + nb) + 64 * tiny
+                        # round-off the recurrences cannot avoid: x is accumulated on top of the initial guess
+                        nxx = max(n2(xn), 0.0 if x0_before is None else n2(x0_before.double().numpy()))
+                        bound = tol * nb + C_CG * u * (smax * nxx + nb) + 64 * tiny
                         ck.ratio("cg_residual", regime, res, bound, entry, "residual_exceeds_tol_times_norm_b",
                                  lambda: dict(wit(), x=xn.reshape(-1).tolist() if n <= 12 else "large", residual=res,
                                               tol_times_b=tol * nb))
                         ck.note_max("max_cg_residual_over_tol_b", res / (tol * nb))
                         # what the round-off allowance has to cover, in units of u (|A||x| + |b|)   (calibration of C_CG)
-                        ck.note_max(f"max_cg_excess_over_u_scale/{dn}", (res - tol * nb) / (u * (smax * n2(xn) + nb)))
+                        ck.note_max(f"max_cg_excess_over_u_scale/{dn}", (res - tol * nb) / (u * (smax * nxx + nb)))
                     # b = 0
                     x0 = None if rng.random() < 0.5 else tt(rng.standard_normal((n, 1)), dn)
                     x0b = None if x0 is None else x0.clone()
@@ -737,7 +755,7 @@ def drive_sparse(ck, rng, dn, thorough):
             ck.mark(f"sparse/exhaustive-subset-pairs/k{k}")
     # (2) random densities, all layout pairs, block sizes 1..4
     dens = (0.0, 0.1, 0.5, 1.0)
-    nrep = 6 if thorough else 1
+    nrep = 24 if thorough else 2
     for dA in dens:
         for dB in dens:
             for rep in range(nrep):
@@ -764,6 +782,21 @@ def drive_sparse(ck, rng, dn, thorough):
                 ck.mark(f"sparse/block/{dm}")
                 ck.mark(f"sparse/block/{dq}")
                 ck.mark(f"sparse/block/{dp}")
+    # (2b) square operands with equal block sizes (where a transposed / mis-read operand still has a valid shape)
+    for d in dens:
+        for rep in range(nrep):
+            case += 1
+            if not ck.mine(case):
+                continue
+            sq, bs = int(rng.integers(1, 6)), int(rng.integers(1, 5))
+            patA, patB = rng.random((sq, sq)) < max(d, 0.05), rng.random((sq, sq)) < max(d, 0.05)
+            if d == 0.0:
+                patA[:], patB[:] = False, False
+                patA[rng.integers(sq), rng.integers(sq)] = True
+                patB[rng.integers(sq), rng.integers(sq)] = True
+            product_case(ck, rng, dn, patA, patB, bs, bs, bs, f"square/density{d:g}", allpairs + core,
+                         "int" if rng.random() < 0.3 else "normal")
+            ck.mark("sparse/square-operands")
     # (3) targeted merge-join patterns on long rows
     for sn in ((8, 12, 19) if thorough else (8, 12)):
         idx = np.arange(sn)
@@ -814,7 +847,7 @@ def run(ck):
     for a in LAYOUTS:
         for b in LAYOUTS:
             ck.require(f"sparse/pair/{a}x{b}")
-    ck.require("sparse/pair/bsr_bsc_matmul(bsr,bsc)", "sparse/merge-join-targeted")
+    ck.require("sparse/pair/bsr_bsc_matmul(bsr,bsc)", "sparse/merge-join-targeted", "sparse/square-operands")
     for k in (1, 2, 3, 4):
         ck.require(f"sparse/exhaustive-subset-pairs/k{k}")
     for d in (1, 2, 3, 4):
